@@ -182,7 +182,14 @@ func hsEq(a, b []byte, n int) bool {
 // hsDatagram: a datagram of symbolic length n <= max inside the endpoint's
 // reused receive buffer (capacity max+slack); the bytes beyond n are arbitrary
 // stale contents.
+// hsAnyLength: set by the C10 wrappers - the datagram may then have ANY length
+// from 0 up to 4 KiB instead of the neighbourhood of the message's own length.
+var hsAnyLength bool
+
 func hsDatagram(tag string, min, max int) ([]byte, int) {
+	if hsAnyLength {
+		min, max = 0, 4096
+	}
 	n := verifInt(tag + "-len")
 	verifAssume(n >= min && n <= max)
 	buf := verifBytes(tag, max+64)
